@@ -110,4 +110,99 @@ theorem run_findFreeLoop (fs : FsState) (img : Img) (hg : Geo fs img.size) (hft 
       rw [this]
       exact ⟨d, SameStore.refl d, rfl⟩
 
+theorem or_mul256 (x b : Nat) (hx : x < 256) : x ||| b * 256 = x + b * 256 := by
+  have := Nat.shiftLeft_add_eq_or_of_lt (i := 8) (b := x) (by simpa using hx) b
+  rw [Nat.shiftLeft_eq] at this
+  simp only [Nat.reducePow] at this
+  rw [Nat.or_comm, ← this, Nat.add_comm]
+
+theorem run_slice_readU8 (s : DiskSlice) (d : Dev) (h : d.failAt = none)
+    (hfit : s.offset + 1 ≤ s.size) (hdev : s.beginOff + s.size ≤ d.img.size) :
+    ∃ d', run (readU8 DiskSlice.strm s) d =
+      (.ok (d.img.getByte (s.beginOff + s.offset), { s with offset := s.offset + 1 }), d') ∧ SameStore d d' := by
+  obtain ⟨d1, h1, hs1⟩ := run_slice_readExact s 1 d h hfit hdev
+  refine ⟨d1, ?_, hs1⟩
+  unfold readU8
+  rw [run_bind_ok h1]
+  simp only [run_pure, Img.read_getD _ _ _ _ (show 0 < 1 by omega)]
+  rfl
+
+/-- the FAT12 scan loop: `packed` is the 16-bit window at entry `c`, the slice stands right after it -/
+theorem run_findFree12Loop (fs : FsState) (img : Img) (hg : Geo fs img.size) (hft : fs.fatType = .fat12) :
+    ∀ (fuel : Nat) (s : DiskSlice) (c endC packed : Nat) (d : Dev), IsFatSlice fs s →
+      s.offset = c + c / 2 + 2 → packed = img.le16 ((fatSliceOf fs).beginOff + (c + c / 2)) →
+      c < endC → endC ≤ fs.totalClusters + 2 → endC - c + 1 ≤ fuel → d.failAt = none → d.img = img →
+      ∃ d', SameStore d d' ∧ ScanOut fs d' (findFreeV (tabView fs img) c (endC - c))
+        (run (Table.findFree12Loop DiskSlice.strm fuel s c endC packed) d) := by
+  intro fuel
+  induction fuel with
+  | zero => intro s c endC packed d _ _ _ _ _ hf; omega
+  | succ k ih =>
+    intro s c endC packed d hs hoff hpk hc hend hfuel hfa himg
+    obtain ⟨hb, hsz, hm, hvf⟩ := hs
+    have hct : c < fs.totalClusters + 2 := by omega
+    have hfdev := hg.fat_dev
+    obtain ⟨n, hn⟩ : ∃ n, endC - c = n + 1 := ⟨endC - c - 1, by omega⟩
+    have hn' : endC - (c + 1) = n := by omega
+    have hfree := tabView_free_iff12 hg img hft hct
+    rw [← hpk] at hfree
+    unfold Table.findFree12Loop
+    rw [hn]
+    unfold findFreeV
+    show ∃ d', _ ∧ ScanOut fs d' _ (run (if val12 c packed = 0 then _ else _) d)
+    by_cases hv0 : val12 c packed = 0
+    · rw [if_pos hv0, if_pos (hfree.mpr hv0)]
+      exact ⟨d, SameStore.refl d, _, rfl, ⟨hb, hsz, hm, hvf⟩⟩
+    · rw [if_neg hv0, if_neg (fun h => hv0 (hfree.mp h))]
+      simp only
+      by_cases hlast : c + 1 = endC
+      · rw [if_pos hlast]
+        have : n = 0 := by omega
+        subst this
+        exact ⟨d, SameStore.refl d, rfl⟩
+      · rw [if_neg hlast]
+        have hc1 : c + 1 < fs.totalClusters + 2 := by omega
+        have hfit1 := hg.ents (c + 1) hc1
+        rw [hft] at hfit1
+        simp only [entOff, entWidth] at hfit1
+        by_cases hev : (c + 1) % 2 = 0
+        · rw [if_pos hev]
+          have hpos : s.offset = (c + 1) + (c + 1) / 2 := by omega
+          obtain ⟨d1, h1, hs1⟩ := run_slice_readU16 s d hfa (by rw [hpos, hsz]; exact hfit1)
+            (by rw [hb, hsz, himg]; exact hfdev)
+          rw [run_bind_ok h1]
+          simp only
+          obtain ⟨d2, hs2, hout⟩ := ih { s with offset := s.offset + 2 } (c + 1) endC
+            (d.img.le16 (s.beginOff + s.offset)) d1 ⟨hb, hsz, hm, hvf⟩ (by show s.offset + 2 = _; omega)
+            (by rw [himg, hb, hpos]) (by omega) hend (by omega) (by rw [hs1.failAt]; exact hfa)
+            (by rw [hs1.img]; exact himg)
+          rw [hn'] at hout
+          exact ⟨d2, hs1.trans hs2, hout⟩
+        · rw [if_neg hev]
+          obtain ⟨d1, h1, hs1⟩ := run_slice_readU8 s d hfa (by rw [hoff, hsz]; omega)
+            (by rw [hb, hsz, himg]; exact hfdev)
+          rw [run_bind_ok h1]
+          simp only
+          obtain ⟨d2, hs2, hout⟩ := ih { s with offset := s.offset + 1 } (c + 1) endC
+            (packed / 256 ||| d.img.getByte (s.beginOff + s.offset) * 256) d1 ⟨hb, hsz, hm, hvf⟩
+            (by show s.offset + 1 = _; omega)
+            (by
+              have hlt : packed / 256 < 256 := by
+                rw [hpk]; unfold Img.le16
+                have := getByte_lt' img ((fatSliceOf fs).beginOff + (c + c / 2))
+                have := getByte_lt' img ((fatSliceOf fs).beginOff + (c + c / 2) + 1)
+                omega
+              rw [or_mul256 _ _ hlt, hpk, himg, hb, hoff]
+              unfold Img.le16
+              have h0 := getByte_lt' img ((fatSliceOf fs).beginOff + (c + c / 2))
+              have e1 : (fatSliceOf fs).beginOff + (c + 1 + (c + 1) / 2) =
+                  (fatSliceOf fs).beginOff + (c + c / 2) + 1 := by omega
+              have e2 : (fatSliceOf fs).beginOff + (c + c / 2 + 2) =
+                  (fatSliceOf fs).beginOff + (c + c / 2) + 1 + 1 := by omega
+              rw [e1, e2]
+              omega)
+            (by omega) hend (by omega) (by rw [hs1.failAt]; exact hfa) (by rw [hs1.img]; exact himg)
+          rw [hn'] at hout
+          exact ⟨d2, hs1.trans hs2, hout⟩
+
 end FatVerif.FileSim
